@@ -8,9 +8,10 @@ C05 — kernel-checked witnesses.
    model (= chibicc): in.b == 2;  specification (= gcc): in.b == 0.
    The witness lies in the region `InitSpec.BraceOverride`, outside which `C05_parse_spec_partial` is stated.
 
-2. `_Bool` bit-field, static storage: `write_gvar_data` masks the unconverted value, `create_lvar_init` assigns (and so converts):
-      struct B { _Bool b : 1; } s = { 2 };     static: b == 0, automatic: b == 1
-   This is why `fits` demands, for `_Bool` bit-fields, a value whose masked bits survive the conversion.
+2. Repaired defect (`fix:` in /repo): `_Bool` bit-field, static storage.  `write_gvar_data` masked the unconverted value while
+   `create_lvar_init` assigns (and so converts):
+      struct B { _Bool b : 1; } s = { 2 };     pre-fix static: b == 0 (2 & 1), automatic: b == 1
+   The repaired arm converts first (`newval != 0`); the witness below shows the pre-fix value and that both back ends now give 1.
 -/
 import ChibiVerif.Model.Init
 import ChibiVerif.Spec.InitSpec
@@ -55,9 +56,9 @@ theorem C05_finding_brace_override_in_region : InitSpec.BraceOverride tS overrid
 /-- `struct B { _Bool b : 1; } = { 2 }` -/
 def tB : Ty := .struct [(⟨some "b", 0, some (0, 1)⟩, .scalar 1 .bool)] 1 false
 
-theorem C05_finding_bool_bitfield :
-    (staticObject (.struct none [.leaf (some (Expr.num 2))]) tB).toOption = some [Cell.byte 0] ∧
-    (autoObject (.struct none [.leaf (some (Expr.num 2))]) tB).toOption = some [Cell.byte 1] ∧
-    fits (.struct none [.leaf (some (Expr.num 2))]) tB = false := by decide
+theorem C05_repaired_bool_bitfield :
+    (u64 2 &&& bfMask 1) <<< 0 = 0 ∧                                                     -- what the pre-fix arm stored
+    (staticObject (.struct none [.leaf (some (Expr.num 2))]) tB).toOption = some [Cell.byte 1] ∧
+    (autoObject (.struct none [.leaf (some (Expr.num 2))]) tB).toOption = some [Cell.byte 1] := by decide
 
 end ChibiVerif.Findings.C05
